@@ -12,7 +12,9 @@ static InclParam mk(bool down, bool rec, bool opt, bool sim) { InclParam ip; ip.
   ip.SetUseRecursion(rec); ip.SetUseDownwardCacheImpl(opt); ip.SetUseSimulation(sim); return ip; }
 
 // 1/0 verdict, 2 std::exception (3 NotImplementedException), 4 other
-template <class F> static int guard(F f, std::string* what) { try { return f() ? 1 : 0; } catch (NotImplementedException& e) { if (what) *what = e.what(); return 3; } catch (std::exception& e) { if (what) *what = e.what(); return 2; } catch (...) { return 4; } }
+template <class F> static int guardRaw(F f, std::string* what);
+template <class F> static int guard(F f, std::string* what) { int r = guardRaw(f, what); verif::obs((uint64_t)r + 23); return r; }
+template <class F> static int guardRaw(F f, std::string* what) { try { return f() ? 1 : 0; } catch (NotImplementedException& e) { if (what) *what = e.what(); return 3; } catch (std::exception& e) { if (what) *what = e.what(); return 2; } catch (...) { return 4; } }
 
 struct PairSrc { std::shared_ptr<dom::TADomain> D, DB; std::shared_ptr<dom::PairIndex> P; uint64_t total;
   std::pair<ref::TA, ref::TA> get(uint64_t idx) const { if (P) { auto ij = P->get(idx); return {D->get(ij.first), D->get(ij.second)}; } return {D->get(idx / DB->size()), DB->get(idx % DB->size())}; } };
@@ -90,4 +92,7 @@ static Register t3("c07.trim.n2s2.a4b4", "C07", "pairs of TRIMMED automata of TA
 static Register t4("c07.trim.n2s3.a4b4", "C07", "pairs of TRIMMED automata of TA(2,{a:0,b:0,f:1,g:2},<=4 rules)", [](Env& e) { bodyTrim(e, "c07.trim.n2s3.a4b4", 2, dom::Sigma3(), 4, 4); });
 static Register t5("c07.trim.n2s2.a3b3", "C07", "pairs of TRIMMED automata of TA(2,{a:0,b:0,g:2},<=3 rules)", [](Env& e) { bodyTrim(e, "c07.trim.n2s2.a3b3", 2, dom::Sigma2(), 3, 3); });
 static Register t6("c07.trim.n3s2.a2b3", "C07", "pairs of TRIMMED automata of TA(3,{a:0,b:0,g:2}): A <=2 rules x B <=3 rules", [](Env& e) { bodyTrim(e, "c07.trim.n3s2.a2b3", 3, dom::Sigma2(), 2, 3); });
+static Register t7("c07.trim.n3ah.a2b3", "C07", "pairs of TRIMMED automata of TA(3,{a:0,h:3}): A <=2 x B <=3 rules (ternary symbol: large tuple products)", [](Env& e) { bodyTrim(e, "c07.trim.n3ah.a2b3", 3, dom::SigmaAH(), 2, 3); });
+static Register t8("c07.trim.n3ah.a3b4", "C07", "pairs of TRIMMED automata of TA(3,{a:0,h:3}): A <=3 x B <=4 rules", [](Env& e) { bodyTrim(e, "c07.trim.n3ah.a3b4", 3, dom::SigmaAH(), 3, 4); });
+static Register t9("c07.trim.n4ag.a2b4", "C07", "pairs of TRIMMED automata of TA(4,{a:0,g:2}): A <=2 x B <=4 rules", [](Env& e) { bodyTrim(e, "c07.trim.n4ag.a2b4", 4, dom::SigmaAG(), 2, 4); });
 }  // namespace c07
